@@ -377,6 +377,12 @@ def check_aggregate(ck, tu):
             g2 = cfgm.CFG(f)
             for d in divs:
                 den = match.binop(d, ("/",))[2]
+                for _ in range(3):
+                    dd = ref_of(den)
+                    dv = [v for v in f.nodes() if v["k"] == "VarDecl" and v.get("did") == dd and kids(v) and kids(v)[0] is not None] if dd is not None else []
+                    if not dv:
+                        break
+                    den = kids(dv[0])[0]          # a local standing for the denominator
                 flds = set((match.field_of(y) or (None, None))[1] for y in ir.walk(den) if y["k"] == "MemberExpr")
                 if flds != {"count_"}:
                     continue
